@@ -108,6 +108,9 @@ func init() {
 		"time.Now":   timeNow,
 		"time.Since": timeSince,
 		"time.Sleep": func(fr *frame, a []value) value { fr.i.sched.yield("time.Sleep"); return nil },
+		"time.runtimeNano":     func(fr *frame, a []value) value { fr.i.clock += 1000; return int64(1_000_000_000) + fr.i.clock },
+		"time.now":             func(fr *frame, a []value) value { fr.i.clock += 1000; return tuple{int64(1_700_000_000), int32(fr.i.clock % 1_000_000_000), int64(1_000_000_000) + fr.i.clock} },
+		"time.runtimeNow":      func(fr *frame, a []value) value { fr.i.clock += 1000; return tuple{int64(1_700_000_000), int32(fr.i.clock % 1_000_000_000), int64(1_000_000_000) + fr.i.clock} },
 		"time.NewTicker":       timeNewTicker,
 		"(*time.Ticker).Stop":  func(fr *frame, a []value) value { tickerOf(fr, a[0]).stop = true; return nil },
 		"(*time.Ticker).Reset": func(fr *frame, a []value) value { tickerOf(fr, a[0]).stop = false; return nil },
